@@ -58,9 +58,9 @@ func (rn *runner) slash(v int, frac sdkmath.LegacyDec, infraction int64) {
 	rn.st.Count("corpus:slash")
 }
 
-// 1. a validator with an exchange rate other than one (slashed earlier): seven non-voting
-//    undelegations; x/staking unbonds one unit less than requested for some of them.
-//    Found: EndBlocker "insufficient funds" at completion (halt). Repaired: recorded = released.
+//  1. a validator with an exchange rate other than one (slashed earlier): seven non-voting
+//     undelegations; x/staking unbonds one unit less than requested for some of them.
+//     Found: EndBlocker "insufficient funds" at completion (halt). Repaired: recorded = released.
 func (rn *runner) corpusRounding() {
 	rn.fresh("corpus:sc-rounding")
 	if rn.dead {
@@ -99,8 +99,8 @@ func (rn *runner) corpusSlashedUnbonding() {
 	}
 }
 
-// 3. unbonding entries completing inside the current second (fix e1d5c50), blocks placed
-//    before / inside / at / after the fractional completion time
+//  3. unbonding entries completing inside the current second (fix e1d5c50), blocks placed
+//     before / inside / at / after the fractional completion time
 func (rn *runner) corpusSubsecond() {
 	rn.fresh("corpus:sc-subsecond")
 	if rn.dead {
@@ -122,8 +122,8 @@ func (rn *runner) corpusSubsecond() {
 	}
 }
 
-// 4. gauge pool with positions but no in-range liquidity at BeginBlock (fix e760b00) and an
-//    emission that is not divisible
+//  4. gauge pool with positions but no in-range liquidity at BeginBlock (fix e760b00) and an
+//     emission that is not divisible
 func (rn *runner) corpusZeroLiquidity() {
 	rn.fresh("corpus:zero-liquidity")
 	if rn.dead {
@@ -145,8 +145,8 @@ func (rn *runner) corpusZeroLiquidity() {
 	}
 }
 
-// 5. DA: threshold 0 (every item is challenged at once, nobody to reward: fix 6441886), the
-//    largest admissible replication factor, the parameter values of the repaired validation
+//  5. DA: threshold 0 (every item is challenged at once, nobody to reward: fix 6441886), the
+//     largest admissible replication factor, the parameter values of the repaired validation
 func (rn *runner) corpusDA() {
 	rn.fresh("corpus:da")
 	if rn.dead {
@@ -228,9 +228,9 @@ func (rn *runner) corpusPreBlock() {
 	rn.blockCase(time.Second, [][]byte{{1, 2, 3}, []byte("METADATA"), []byte("METADATA"), {}}, "corpus:preblock:odd")
 }
 
-// 7. the recipient of a non-voting undelegation is a blocked address (a module account): the
-//    payout at completion is refused by the bank. Found: the end blocker returns that error at
-//    every block from then on (halt). Repaired: the message is rejected.
+//  7. the recipient of a non-voting undelegation is a blocked address (a module account): the
+//     payout at completion is refused by the bank. Found: the end blocker returns that error at
+//     every block from then on (halt). Repaired: the message is rejected.
 func (rn *runner) corpusBlockedRecipient() {
 	rn.fresh("corpus:sc-blocked-recipient")
 	if rn.dead {
@@ -259,17 +259,17 @@ func (rn *runner) corpus() {
 func watchCorpus() []watchSpec {
 	specs := []watchSpec{
 		{Ratio: "1.0001", Offset: "0", Fee: "0.01", Base: "1000", Quote: "2000", Lower: -10, Upper: 10},
-		{Ratio: "1.0001", Offset: "0", Fee: "0.01", Base: "1000000000000000000000000000000000", Quote: "1", Lower: -10, Upper: 10},        // stall: 1024e-18
-		{Ratio: "1.0001", Offset: "0", Fee: "0.01", Base: "100000000000000000000000000000", Quote: "1", Lower: -10, Upper: 10},            // tiny but above the fixed point
-		{Ratio: "1", Offset: "0", Fee: "0.01", Base: "1000", Quote: "2000", Lower: -10, Upper: 10},                                          // ratio one
-		{Ratio: "0.5", Offset: "0", Fee: "0.01", Base: "2000", Quote: "1000", Lower: -10, Upper: 10},                                        // ratio below one, price below offset
-		{Ratio: "1.000000000000000001", Offset: "0", Fee: "0.01", Base: "1000", Quote: "2000", Lower: -10, Upper: 10},                       // astronomically many steps
-		{Ratio: "1.0001", Offset: "-0.5", Fee: "0", Base: "1", Quote: "1000000000000", Lower: -100, Upper: 100},                             // ~276 000 steps up
+		{Ratio: "1.0001", Offset: "0", Fee: "0.01", Base: "1000000000000000000000000000000000", Quote: "1", Lower: -10, Upper: 10}, // stall: 1024e-18
+		{Ratio: "1.0001", Offset: "0", Fee: "0.01", Base: "100000000000000000000000000000", Quote: "1", Lower: -10, Upper: 10},     // tiny but above the fixed point
+		{Ratio: "1", Offset: "0", Fee: "0.01", Base: "1000", Quote: "2000", Lower: -10, Upper: 10},                                 // ratio one
+		{Ratio: "0.5", Offset: "0", Fee: "0.01", Base: "2000", Quote: "1000", Lower: -10, Upper: 10},                               // ratio below one, price below offset
+		{Ratio: "1.000000000000000001", Offset: "0", Fee: "0.01", Base: "1000", Quote: "2000", Lower: -10, Upper: 10},              // astronomically many steps
+		{Ratio: "1.0001", Offset: "-0.5", Fee: "0", Base: "1", Quote: "1000000000000", Lower: -100, Upper: 100},                    // ~276 000 steps up
 		{Ratio: "2", Offset: "0.5", Fee: "0.003", Base: "5", Quote: "1000000", Lower: -2, Upper: 30},
 		{Ratio: "1.01", Offset: "0", Fee: "0.999999999999999999", Base: "1000000", Quote: "3", Lower: -2000, Upper: 10},
 		{Ratio: "1.0001", Offset: "0.999999999999999999", Fee: "0.01", Base: "1000", Quote: "1000", Lower: -10, Upper: 10},
-		{Ratio: "1.0001", Offset: "1", Fee: "0.01", Base: "1000", Quote: "1000", Lower: -10, Upper: 10},                                     // offset out of range
-		{Ratio: "1.0001", Offset: "0", Fee: "1", Base: "1000", Quote: "1000", Lower: -10, Upper: 10},                                        // fee rate one
+		{Ratio: "1.0001", Offset: "1", Fee: "0.01", Base: "1000", Quote: "1000", Lower: -10, Upper: 10}, // offset out of range
+		{Ratio: "1.0001", Offset: "0", Fee: "1", Base: "1000", Quote: "1000", Lower: -10, Upper: 10},    // fee rate one
 	}
 	return specs
 }
